@@ -8,6 +8,7 @@ LN10_10 = math.log(10) / 10
 
 
 def interp_lin(x, xs, ys):
+    xs, ys = zip(*sorted(zip(xs, ys)))       # a table is a set of (x, y) pairs: listing order carries no meaning
     if x < xs[0] or x > xs[-1]:
         raise ValueError('outside table')
     for i in range(len(xs) - 1):
